@@ -279,38 +279,52 @@ func checkC19(c *Ctx) {
 		rw := p.Method("security/crypto", "Bitfield", "RangeWhile")
 		okLoop := false
 		if rw != nil {
-			fl := NewFlow(p, rw)
-			eachInstr(rw, func(in ssa.Instruction) {
-				if call, isCall := in.(*ssa.Call); isCall && call.Call.StaticCallee() == idf {
-					facts := fl.At(in)
-					if hasCmp(facts, "<", func(k string) bool { return strings.HasPrefix(k, "(phi@") || strings.HasPrefix(k, "phi@") }, is("c:8")) {
-						okLoop = true
-					}
-					// induction on the loop counter: starts at a constant below 8 and is re-entered only under counter+1 < 8
-					if ph, isPhi := call.Call.Args[1].(*ssa.Phi); isPhi && phiBelow(fl, ph, 8) {
-						okLoop = true
-					}
+			// (in RangeWhile or in the private helper that walks one byte)
+			for _, hf := range helperClosure(p, rw, 2) {
+				if funcPkgPath(hf) != funcPkgPath(rw) || hf == idf {
+					continue
 				}
-			})
+				fl := NewFlow(p, hf)
+				eachInstr(hf, func(in ssa.Instruction) {
+					if call, isCall := in.(*ssa.Call); isCall && call.Call.StaticCallee() == idf {
+						facts := fl.At(in)
+						if hasCmp(facts, "<", func(k string) bool { return strings.HasPrefix(k, "(phi@") || strings.HasPrefix(k, "phi@") }, is("c:8")) {
+							okLoop = true
+						}
+						// induction on the loop counter: starts at a constant below 8 and is re-entered only under counter+1 < 8
+						if ph, isPhi := call.Call.Args[1].(*ssa.Phi); isPhi && phiBelow(fl, ph, 8) {
+							okLoop = true
+						}
+					}
+				})
+			}
 		}
 		c.Check(okLoop, "C19.3", "RangeWhile: bit index ranges over 0..7", "security/crypto/bitfield.go", "id(byteIdx, bitIdx) is evaluated only under bitIdx < 8", "bit loop bound is not 8")
 	}
 	// C19.4 ascending iteration: bytes outer, bits inner, both by ascending range index; callback per set bit
 	if rw := p.Method("security/crypto", "Bitfield", "RangeWhile"); rw != nil {
-		fl := NewFlow(p, rw)
 		n := 0
 		var okGate bool
-		eachInstr(rw, func(in ssa.Instruction) {
-			call, ok := in.(*ssa.Call)
-			if !ok || call.Call.StaticCallee() != nil || call.Call.IsInvoke() {
-				return
+		for _, hf := range helperClosure(p, rw, 2) {
+			if funcPkgPath(hf) != funcPkgPath(rw) {
+				continue
 			}
-			if _, isB := call.Call.Value.(*ssa.Builtin); isB {
-				return
-			}
-			n++
-			okGate = trueOf(fl.At(in), func(k string) bool { return strings.HasPrefix(k, kIsSetCall) })
-		})
+			fl := NewFlow(p, hf)
+			eachInstr(hf, func(in ssa.Instruction) {
+				call, ok := in.(*ssa.Call)
+				if !ok || call.Call.StaticCallee() != nil || call.Call.IsInvoke() {
+					return
+				}
+				if _, isB := call.Call.Value.(*ssa.Builtin); isB {
+					return
+				}
+				if _, isParam := call.Call.Value.(*ssa.Parameter); !isParam {
+					return
+				}
+				n++
+				okGate = trueOf(fl.At(in), func(k string) bool { return strings.HasPrefix(k, kIsSetCall) })
+			})
+		}
 		c.Check(n == 1 && okGate, "C19.4", "RangeWhile: callback once per set bit", p.FuncPos(rw), "the callback is invoked at one site, only under isSet(byteIdx, bitIdx)", "callback sites: "+itoa(n)+", gated: "+boolStr(okGate))
 	}
 	c19StopsOnFalse(c, p.Method("security/crypto", "Bitfield", "RangeWhile"), "Bitfield.RangeWhile")
@@ -430,6 +444,10 @@ func checkC19(c *Ctx) {
 		inBounds := func(fs []Fact) bool {
 			for _, f := range fs {
 				if f.Op == "<" && strings.Contains(f.L, kIndexCall) && strings.HasPrefix(f.R, "builtin len(") {
+					return true
+				}
+				// the same test on the amount that is missing: byteIdx + 1 - len(data) <= 0
+				if f.Op == "<=" && f.R == "c:0" && strings.Contains(f.L, kIndexCall) && strings.Contains(f.L, "+ c:1) - builtin len(") {
 					return true
 				}
 			}
